@@ -28,9 +28,8 @@ def main():
         for i, h in enumerate(hists):
             p = progs.program_of(h); p["id"] = "%s-enum-%d" % (name, i); programs.append(p)
         obs = engine.harness_replay(programs, wd, name)
-        nd = [(r["id"], progs.first_diff(h, r["stream"])) for h, r in zip(hists, obs) if progs.first_diff(h, r["stream"]) >= 0]
+        viol, nrec, nd = engine.judge(hists, obs, [], wd, name, 600)
         print("drift=%d %s" % (len(nd), nd[:3]))
-        viol, nrec = engine.trace_props(obs, wd, name, 600)
         c = collections.Counter((v["p"], v["why"]) for v in viol)
         print("records=%d violations=%d" % (nrec, len(viol)))
         for k, n in c.most_common(20): print("  ", n, k)
